@@ -28,6 +28,10 @@ pub struct PTrace {
     pub rcount: u64,
     /// read events are recorded (Safe read-only option on every node)
     pub reads: bool,
+    /// how many times leader c has recorded a request with this context so far: the network may
+    /// duplicate a forwarded MsgReadIndex, and the leader then records (and answers) the same
+    /// context again; the abstract protocol identifies a request by (leader, context, occurrence)
+    pub read_inst: std::collections::BTreeMap<(u64, Vec<u8>), u64>,
 }
 
 /// id of a read request context
@@ -132,21 +136,33 @@ impl PTrace {
     }
     /// read-layer events: `10 c ctx idx` request recorded, `11 q c t ctx` heartbeat
     /// acknowledgement created, `12 c ctx idx` read served
+    fn inst_id(&self, c: u64, ctx: &[u8]) -> u64 {
+        let k = self.read_inst.get(&(c, ctx.to_vec())).cloned().unwrap_or(0);
+        let mut v = ctx.to_vec();
+        v.extend_from_slice(&k.to_le_bytes());
+        ctx_id(&v)
+    }
     pub fn read_req(&mut self, c: u64, ctx: &[u8], idx: u64) {
         if self.enabled && self.reads {
-            self.rev.extend_from_slice(&[10, c, ctx_id(ctx), idx]);
+            *self.read_inst.entry((c, ctx.to_vec())).or_insert(0) += 1;
+            let id = self.inst_id(c, ctx);
+            self.rev.extend_from_slice(&[10, c, id, idx]);
             self.rcount += 1;
         }
     }
+    /// q created a heartbeat response echoing ctx for leader c: it counts for c's current
+    /// (latest recorded) request with that context, as in the implementation (matched by context)
     pub fn hb_ack(&mut self, q: u64, c: u64, t: u64, ctx: &[u8]) {
         if self.enabled && self.reads {
-            self.rev.extend_from_slice(&[11, q, c, t, ctx_id(ctx)]);
+            let id = self.inst_id(c, ctx);
+            self.rev.extend_from_slice(&[11, q, c, t, id]);
             self.rcount += 1;
         }
     }
     pub fn read_serve(&mut self, c: u64, ctx: &[u8], idx: u64) {
         if self.enabled && self.reads {
-            self.rev.extend_from_slice(&[12, c, ctx_id(ctx), idx]);
+            let id = self.inst_id(c, ctx);
+            self.rev.extend_from_slice(&[12, c, id, idx]);
             self.rcount += 1;
         }
     }
